@@ -33,6 +33,8 @@ POOL = {
     # several charge states of one base, both signs
     # dust grains of one group in three charge states
     "GRAIN0": ({"GRAIN": 1}, 0), "GRAIN-": ({"GRAIN": 1}, -1), "GRAIN+": ({"GRAIN": 1}, 1),
+    # an ion that sticks without being neutralised: one parent on the surface in two charge states
+    "#HCO+": ({"H": 1, "C": 1, "O": 1}, 1), "#HCO": ({"H": 1, "C": 1, "O": 1}, 0),
     "O--": ({"O": 1}, -2), "C--": ({"C": 1}, -2), "C-": ({"C": 1}, -1), "Si++": ({"Si": 1}, 2), "Si+++": ({"Si": 1}, 3),
 }
 ELEMENTS = ["H", "D", "He", "C", "O", "Si", "S", "GRAIN"]
@@ -96,6 +98,7 @@ FIXED = [
                    (["H", "H"], ["H2"])], "required": []},
     {"reactions": [(["O-", "e-"], ["O--"]), (["O--", "H+"], ["O-", "H"]), (["C--", "He++"], ["C", "He"]), (["C-", "e-"], ["C--"]),
                    (["Si+++", "e-"], ["Si++"]), (["Si++", "O--"], ["SiO"]), (["O", "e-"], ["O-"])], "required": []},
+    {"reactions": [(["HCO+"], ["#HCO+"]), (["#HCO+", "e-"], ["#HCO"]), (["#HCO"], ["HCO"]), (["HCO+", "e-"], ["HCO"]), (["#HCO+"], ["HCO+"])], "required": []},
     {"reactions": [(["He++", "e-"], ["He+"]), (["He+", "e-"], ["He", "PHOTON"]), (["H-", "H+"], ["H", "H"]), (["H", "CR"], ["H+", "e-"])], "required": []},
 ]
 
